@@ -799,6 +799,15 @@ func getCompositeFieldValues(cadence.Composite) []cadence.Value
 func getCompositeTypeFields(cadence.CompositeType) []cadence.Field
 
 func (i valueImporter) importValue(value cadence.Value, expectedType sema.Type) (interpreter.Value, error) {
+	importedValue, err := i.importUnboxedValue(value, expectedType)
+	if err != nil {
+		return nil, err
+	}
+	// A value for an optional type may be given without the optional, e.g. `1` for `Int?`
+	return interpreter.BoxOptional(i.context, importedValue, expectedType), nil
+}
+
+func (i valueImporter) importUnboxedValue(value cadence.Value, expectedType sema.Type) (interpreter.Value, error) {
 	switch v := value.(type) {
 	case cadence.Void:
 		return interpreter.Void, nil
@@ -1309,6 +1318,10 @@ func (i valueImporter) importArrayValue(
 			return nil, errors.NewUnexpectedError("cannot import array: elements do not belong to the same type")
 		}
 
+		for i, value := range values {
+			values[i] = interpreter.BoxOptional(inter, value, elementSuperType)
+		}
+
 		staticArrayType = interpreter.NewVariableSizedStaticType(
 			inter,
 			interpreter.ConvertSemaToStaticType(inter, elementSuperType),
@@ -1390,6 +1403,11 @@ func (i valueImporter) importDictionaryValue(
 
 		if valueSuperType == sema.InvalidType {
 			return nil, errors.NewDefaultUserError("cannot import dictionary: values does not belong to the same type")
+		}
+
+		for i := range size {
+			keysAndValues[i*2] = interpreter.BoxOptional(inter, keysAndValues[i*2], keySuperType)
+			keysAndValues[i*2+1] = interpreter.BoxOptional(inter, keysAndValues[i*2+1], valueSuperType)
 		}
 
 		dictionaryStaticType = interpreter.NewDictionaryStaticType(
